@@ -17,22 +17,23 @@ import (
 // path item, or a chain of parameter / response / path-item references).
 
 var docURLs = []string{
-	"file:///r/s/root.json",      // 0 root
-	"file:///r/s/sib.json",       // 1 sibling file
-	"file:///r/s/sub/o.json",     // 2 sub-directory
-	"file:///r/up.json",          // 3 parent directory
-	"http://h/x/y.json",          // 4 absolute URL on another scheme/host
-	"file:///r/s2/p.json",        // 5 sibling directory whose name extends the root directory's name
-	"file:///r/s/sub/q.json",     // 6 second document of the sub-directory
-	"file:///r/t/u/v.json",       // 7 cousin directory (two levels)
-	"http://h/r/s/root.json",     // 8 same path as the root document, on another scheme and host
-	"file:///r/s/root.json.bak",  // 9 sibling file whose name extends the root document's name
-	"http://h:8080/r/s/sib.json", // 10 same path as the sibling file, on a host with a port (with Site 1: the root's host, another port)
-	"file:///r/s/sub/sub/o.json", // 11 from sub/o.json under the relative path that leads from the root to sub/o.json
-	"http://h/x/y.json?v=2",      // 12 differs from document 4 by its query only (references from and to it are written in full)
+	"file:///r/s/root.json",       // 0 root
+	"file:///r/s/sib.json",        // 1 sibling file
+	"file:///r/s/sub/o.json",      // 2 sub-directory
+	"file:///r/up.json",           // 3 parent directory
+	"http://h/x/y.json",           // 4 absolute URL on another scheme/host
+	"file:///r/s2/p.json",         // 5 sibling directory whose name extends the root directory's name
+	"file:///r/s/sub/q.json",      // 6 second document of the sub-directory
+	"file:///r/t/u/v.json",        // 7 cousin directory (two levels)
+	"http://h/r/s/root.json",      // 8 same path as the root document, on another scheme and host
+	"file:///r/s/root.json.bak",   // 9 sibling file whose name extends the root document's name
+	"http://h:8080/r/s/sib.json",  // 10 same path as the sibling file, on a host with a port (with Site 1: the root's host, another port)
+	"file:///r/s/sub/sub/o.json",  // 11 from sub/o.json under the relative path that leads from the root to sub/o.json
+	"http://h/x/y.json?v=2",       // 12 differs from document 4 by its query only (references from and to it are written in full)
+	"http://h:8080/r/s/root.json", // 13 the root document's path on a host with a port (with Site 1: the root's host, another port)
 }
 
-var docNames = []string{"root", "sibling", "subdir", "parentdir", "absolute-http", "prefix-sibling-dir", "subdir2", "cousin", "same-path-other-site", "name-extends-root-name", "same-host-other-port", "subdir-of-subdir-same-file-name", "same-url-other-query"}
+var docNames = []string{"root", "sibling", "subdir", "parentdir", "absolute-http", "prefix-sibling-dir", "subdir2", "cousin", "same-path-other-site", "name-extends-root-name", "same-host-other-port", "subdir-of-subdir-same-file-name", "same-url-other-query", "root-path-other-port"}
 
 const (
 	formProperties = iota
